@@ -52,6 +52,8 @@ func c02Values() []opVal {
 		lit(`["a"]`, func() *rt.Node { return rt.List(rt.Str("a")) }, nil, false),
 		lit("{}", func() *rt.Node { return rt.Map() }, nil, false),
 		lit(`{"a":1}`, func() *rt.Node { return rt.Map(rt.Str("a"), rt.Int(1)) }, nil, false),
+		lit(`{"a":nil}`, func() *rt.Node { return rt.Map(rt.Str("a"), rt.Nil()) }, nil, false),
+		lit(`{"b":nil}`, func() *rt.Node { return rt.Map(rt.Str("b"), rt.Nil()) }, nil, false),
 	}
 	return vals
 }
@@ -378,9 +380,55 @@ func c02Mutating(w *run.Worker) {
 	}
 }
 
+// c02Once: the right operand of a compound assignment is evaluated exactly once (probe on it), on a
+// variable, a list element and a map element; and an operator keeps working after several hundred
+// short-circuited && / || in the same run.
+func c02Once(w *run.Worker) {
+	I, S, Id := rt.Int, rt.Str, rt.Id
+	for _, op := range c02AsgOps {
+		for form := 0; form < 3; form++ {
+			if !w.Take() {
+				continue
+			}
+			var body []*rt.Node
+			switch form {
+			case 0:
+				body = []*rt.Node{rt.Assign("=", Id("z"), I(10)), rt.Assign(op, Id("z"), rt.Call("p", I(3))), rt.Call("p", Id("z"))}
+			case 1:
+				body = []*rt.Node{rt.Assign("=", Id("zl"), rt.List(I(0), I(10))), rt.Assign(op, rt.Index("zl", rt.Call("p", I(1))), rt.Call("p", I(3))), rt.Call("p", Id("zl"))}
+			case 2:
+				body = []*rt.Node{rt.Assign("=", Id("zm"), rt.Map(S("k"), I(10))), rt.Assign(op, rt.Index("zm", rt.Call("p", S("k"))), rt.Call("p", I(3))), rt.Call("p", Id("zm"))}
+			}
+			p := &Prog{Scripts: map[string][]*rt.Node{"s.p": body}, Main: "s.p", Point: PointSpec{Meas: "m"}}
+			w.Eval()
+			v := Differential(p)
+			w.Outcome(v.Outcome)
+			if v.Skipped == "" && !v.OK {
+				w.Violate("C02:compound-once:"+op+":"+c02Class(v), v.What, c02Case{Form: "tree", Tree: p.Sources()["s.p"]})
+			}
+		}
+	}
+	if w.Take() {
+		inc := func(v string) *rt.Node { return rt.Assign("=", Id(v), rt.Bin("+", Id(v), I(1))) }
+		body := []*rt.Node{rt.Assign("=", Id("n"), I(0)),
+			rt.For(rt.Assign("=", Id("i"), I(0)), rt.Bin("<", Id("i"), I(300)), inc("i"), rt.Block(
+				rt.If(rt.Bin("&&", rt.Bool(false), Id("i")), rt.Block()),
+				rt.If(rt.Bin("||", rt.Bool(true), Id("i")), rt.Block(inc("n"))))),
+			rt.Call("p", rt.Bin("+", Id("n"), I(1)), rt.Bin("&&", rt.Bool(true), rt.Bool(true)), rt.Un("-", Id("n")), rt.In(I(1), rt.List(I(1))), rt.Paren(rt.Bin("*", Id("n"), I(2))))}
+		p := &Prog{Scripts: map[string][]*rt.Node{"s.p": body}, Main: "s.p", Point: PointSpec{Meas: "m"}, Polls: 5000}
+		w.Eval()
+		v := Differential(p)
+		w.Outcome(v.Outcome)
+		if v.Skipped == "" && !v.OK {
+			w.Violate("C02:after-many-short-circuits:"+c02Class(v), v.What, c02Case{Form: "tree", Tree: p.Sources()["s.p"]})
+		}
+	}
+}
+
 func c02Run(w *run.Worker) {
 	vals := c02Values()
 	c02Mutating(w)
+	c02Once(w)
 	// (A) the complete operator table
 	for src := srcLit; src <= srcRetyped; src++ {
 		for _, op := range c02BinOps {
